@@ -164,6 +164,17 @@ def _parse_example(expr):
     return None
 
 
+# "for all argument values": the catalog shows ONE spelling per method; literal (non-column) arguments are varied here
+LITERAL_VARIANTS = {
+    "g.trimstr(0, 2)": ["g.trimstr(1, 3)", "g.trimstr(2, 3)", "g.trimstr(1, 1)", "g.trimstr(0, 0)", "g.trimstr(3, 7)"],
+    "row_id.is_in({1, 3})": ["row_id.is_in({2})", "row_id.is_in({0, 1, 2, 3})"],
+    'g.mapv({"a": 1, "b": 2, "z": 26}, 0)': ['g.mapv({"a": 1}, 7)', 'g.mapv({"": 5, "b": 2}, -1)'],
+    "z.coalesce(2)": ["z.coalesce(0)", "z.coalesce(-1.5)"],
+    "row_id.mod(2)": ["row_id.mod(3)"],
+    "y.around(2)": ["y.around(0)", "y.around(1)"],
+}
+
+
 def obligations():
     import data_algebra.op_catalog as oc
 
@@ -171,8 +182,11 @@ def obligations():
     out = []
     for i in range(tbl.shape[0]):
         r = tbl.iloc[i]
-        out.append({"op": r["op"], "expr": r["expression"], "cls": r["op_class"],
-                    "backends": {"pandas": r["Pandas"] == "y", "sqlite": r["SQLiteModel"] == "y", "postgresql": r["PostgreSQLModel"] == "y"}})
+        ob = {"op": r["op"], "expr": r["expression"], "cls": r["op_class"],
+              "backends": {"pandas": r["Pandas"] == "y", "sqlite": r["SQLiteModel"] == "y", "postgresql": r["PostgreSQLModel"] == "y"}}
+        out.append(ob)
+        for alt in LITERAL_VARIANTS.get(r["expression"], []):
+            out.append(dict(ob, expr=alt, variant_of=r["expression"]))
     return out
 
 
